@@ -34,6 +34,11 @@ type jsonCase struct {
 	// AggAs: the frame written is Build(frame).GroupBy(id).Aggregate(count of column 0 As <AggAs>, max id As "m"):
 	// columns renamed by an aggregation
 	AggAs string `json:"agg_as,omitempty"`
+	// RunePad > 0: the frame is {s: ["x" * RunePad + StrHex[0] + "t", StrHex[0] + "u"], id: [0, 1]}: a multi-byte
+	// character at a chosen offset of the document (every offset across the decoder's buffer refills)
+	RunePad int `json:"rune_pad,omitempty"`
+	// Single: only column 0 of Frame is kept (a frame with exactly one column)
+	Single bool `json:"single,omitempty"`
 }
 
 func hexOf(s string) string { return fmt.Sprintf("%x", s) }
@@ -73,8 +78,17 @@ func (c jsonCase) frame() model.Frame {
 		}
 		return model.Frame{N: c.Rows, Cols: []model.Col{id, sc}}
 	}
+	if c.RunePad > 0 {
+		r := unhex(c.StrHex[0])
+		return model.Frame{N: 2, Cols: []model.Col{
+			{Name: "s", Kind: model.String, Cells: []model.Cell{model.S(strings.Repeat("x", c.RunePad) + r + "t"), model.S(r + "u")}},
+			{Name: "id", Kind: model.Int, Cells: []model.Cell{model.I(0), model.I(1)}}}}
+	}
 	f := c.Frame.Clone()
 	f.Fix()
+	if c.Single {
+		f.Cols = f.Cols[:1]
+	}
 	if c.NameHex != "" {
 		f.Cols[0].Name = unhex(c.NameHex)
 	}
@@ -216,7 +230,7 @@ func c14Run(ctx *core.Ctx) {
 	exec := func(c jsonCase, outcome string) {
 		ctx.Exec(c, func() *core.Failure { return runJSONCase(c) })
 		ctx.Outcome(outcome)
-		ctx.Nontrivial(fmt.Sprintf("%s|%d|%s|%v", c.Frame.String(), c.Shape, c.NameHex, c.StrHex))
+		ctx.Nontrivial(fmt.Sprintf("%s|%d|%s|%v|%d|%v|%d|%d|%v|%s", c.Frame.String(), c.Shape, c.NameHex, c.StrHex, c.RunePad, c.Single, c.Rows, c.Pad, c.ConstEnum, c.AggAs))
 		if ctx.WantSample() && ctx.Index()%1201 == 11 {
 			ctx.Sample(c)
 		}
@@ -302,6 +316,41 @@ func c14Run(ctx *core.Ctx) {
 		}
 		f := model.Frame{N: 2, Cols: []model.Col{{Name: "n", Kind: model.Int, Cells: []model.Cell{model.I(1), model.I(2)}}, {Name: "z", Kind: model.Bool, Cells: []model.Cell{model.B(true), model.B(false)}}}}
 		exec(jsonCase{Frame: f, Shape: 0, NameHex: hexOf(s)}, "long-names")
+	}
+	// a multi-byte character (and the escapes) starting at every document offset 8..8400: across the reader's
+	// and the decoder's buffer boundaries (512, 1536, 3584, 4096, 7680, 8192)
+	for pad := 1; pad <= 8400; pad++ {
+		for _, r := range []string{"\ufeff", "\u00e9", "\u2028", "\"", "\U0001F600"} {
+			if ctx.Mine() {
+				exec(jsonCase{RunePad: pad, StrHex: []string{hexOf(r)}, Shape: pad % model.NShapes}, "rune-at-every-offset")
+			}
+		}
+	}
+	// frames with exactly one column, names with separators in them (and the same names in a two-column frame)
+	for _, name := range []string{"x,y", "a, b", ",", "x,", ",x", "a;b", "a b", " a", "a|b", "a\tb", "a:b", "a.b", "[a]", "{a}", "a=b", "x"} {
+		for _, kind := range []model.Kind{model.String, model.Int, model.Bool, model.Float, model.Enum} {
+			for _, single := range []bool{true, false} {
+				if !ctx.Mine() {
+					continue
+				}
+				col := model.Col{Name: "v", Kind: kind}
+				switch kind {
+				case model.String:
+					col.Cells = []model.Cell{model.S("p"), model.Null()}
+				case model.Enum:
+					col.Cells = []model.Cell{model.S("p"), model.Null()}
+					col.EnumVals = []string{"q", "p"}
+				case model.Int:
+					col.Cells = []model.Cell{model.I(4), model.I(-5)}
+				case model.Float:
+					col.Cells = []model.Cell{model.F(0.5), model.F(-2)}
+				default:
+					col.Cells = []model.Cell{model.B(true), model.B(false)}
+				}
+				f := model.Frame{N: 2, Cols: []model.Col{col, idCol(2)}}
+				exec(jsonCase{Frame: f, Shape: int(ctx.Index() % int64(model.NShapes)), NameHex: hexOf(name), Single: single}, "one-column-and-separator-names")
+			}
+		}
 	}
 	// frames whose columns got their names from an aggregation (As)
 	for _, as := range []string{"total", "n\"q", "s", "\u00e4\\", "m2"} {
